@@ -31,7 +31,12 @@ var c17Ops = []string{
 	"RetrieveAssertionInfo(compressed)", "RetrieveAssertionInfo(compressed2)",
 	"ValidateEncodedLogoutRequestPOST", "ValidateEncodedLogoutResponsePOST", "DecodeUnverifiedBaseResponse",
 	"Metadata", "MetadataWithSLO", "GetSigningCertBytes",
+	"SignLogoutRequest(held)", "SignLogoutResponse(held)", "SignAuthnRequest(held)",
 }
+
+// operations whose results do not depend on the time of the call (usable when the SP has no
+// injected clock and reads real time)
+var c17TimelessOps = []int{12, 13, 14, 15, 16, 17, 18, 19, 20, 21, 24}
 
 func init() {
 	register(&Prop{
@@ -42,7 +47,7 @@ func init() {
 			"oracles: race detector log did not grow, every result equals the solo re-execution of its task on an identical fresh SP, configuration snapshot and arguments unchanged, results scribbled over after return do not affect later results, no deadlock; distinct = context-switch sequences (hash of switch points with yield sites) x workload",
 		Directed:   c17Directed,
 		Run:        c17Run,
-		MustHit:    []string{"strategy=random-walk", "strategy=pct", "strategy=round-robin-fine", "preemption", "two_first_signers", "op=Metadata", "op=RetrieveAssertionInfo", "second_instance", "non_default_algorithm"},
+		MustHit:    []string{"strategy=random-walk", "strategy=pct", "strategy=round-robin-fine", "preemption", "two_first_signers", "op=Metadata", "op=RetrieveAssertionInfo", "second_instance", "non_default_algorithm", "sp_without_clock", "op=SignLogoutResponse(held)"},
 		RandomRuns: map[string]int{"quick": 600, "thorough": 12000},
 		Assumptions: []string{"data-race freedom is shown for the executed schedules of the generated workloads",
 			"channels, sync.Cond and WaitGroup.Wait inside the library are not modelled (a watchdog turns a task that never yields into a harness error)",
@@ -71,6 +76,17 @@ func c17Directed(tier string) [][]uint64 {
 	for op := uint64(0); op < uint64(len(c17Ops)); op++ {
 		out = append(out, []uint64{1, 1, 1, op, 0, 0, 0, 1, 12, op})
 		out = append(out, []uint64{4, 0, 1, op, op, 1, 20, 21})
+	}
+	// caller-held elements signed twice, next to another signer
+	for st := uint64(0); st < 5; st++ {
+		for op := uint64(25); op < 28; op++ {
+			out = append(out, []uint64{st, 0, 0, op, 1, op, 0})
+		}
+	}
+	// an SP without a configured clock: concurrent first validations
+	for st := uint64(1); st < 5; st++ {
+		out = append(out, []uint64{st, 1, 0, 0, 0, 1, 1, 7, 2, 0, 1})
+		out = append(out, []uint64{st, 0, 1, 0, 7, 1, 8, 1, 0, 1})
 	}
 	// concurrent validations of compressed messages
 	for st := uint64(1); st < 5; st++ {
@@ -104,6 +120,19 @@ func c17Run(r *core.Run) {
 		plans = append(plans, p)
 	}
 	useSecond := t.Int(4, "c17.second") == 1
+	// the SP has no Clock configured (the library then reads real time): certificates are valid
+	// 2000-2100, messages are minted for the year 2090, only operations whose result does not
+	// contain the time of the call are used
+	realClock := t.Int(6, "c17.realclock") == 1
+	if realClock {
+		for i := range plans {
+			for j, op := range plans[i].ops {
+				plans[i].ops[j] = c17TimelessOps[op%len(c17TimelessOps)]
+			}
+		}
+		r.Probe("sp_without_clock")
+		r.Fault("sp_reads_real_time")
+	}
 	r.Probe("strategy=" + strategy)
 
 	o := DrawOut(r, 1, true)
@@ -118,6 +147,10 @@ func c17Run(r *core.Run) {
 	}
 	if o.Cfg.SigAlg != "" || o.Cfg.Canon != nil {
 		r.Probe("non_default_algorithm")
+	}
+	if realClock {
+		o.Cfg.NilClock = true
+		o.IdPCert = world.MintCert(o.IdPKey, time.Date(2000, 1, 1, 0, 0, 0, 0, time.UTC), time.Date(2100, 1, 1, 0, 0, 0, 0, time.UTC), 0)
 	}
 	o.Cfg.Store = &world.SimCertStore{Certs: []*world.Cert{o.IdPCert}}
 	o.Cfg.PlainStore = true
@@ -146,6 +179,9 @@ func c17Run(r *core.Run) {
 	// message pool (prepared by the controller before any task starts)
 	env := &c17Env{msgs: map[string]string{}, relay: `rs"<&>`}
 	now := o.Node.Now()
+	if realClock {
+		now = time.Date(2090, 1, 1, 0, 0, 0, 0, time.UTC)
+	}
 	fed := world.Fed{IdPIssuer: o.Cfg.IdPIssuer, ACS: o.Cfg.ACS, SLO: o.Cfg.SLO, SPIssuer: o.Cfg.SPIssuer, Audience: o.Cfg.Audience}
 	issue := func(m *world.LResponse) string {
 		x, err := o.IdP.Issue(m, world.Layout{}, r.Sim.Now())
@@ -246,10 +282,12 @@ func c17Run(r *core.Run) {
 	}
 	// (1) the race detector stayed silent
 	if sz := raceLogSize(); sz > raceBefore {
-		rep := raceLogTail(raceBefore)
-		ctx["race_report"] = trunc(rep, 3500)
-		r.Fail("race", "C17/data-race/"+raceSummary(rep), ctx)
-		return
+		if rep := libraryRaces(raceLogTail(raceBefore)); rep != "" {
+			ctx["race_report"] = trunc(rep, 3500)
+			r.Fail("race", "C17/data-race/"+raceSummary(rep), ctx)
+			return
+		}
+		r.Probe("race_report_on_harness_memory_ignored")
 	}
 	// (3) configuration untouched
 	if snapAfter := c17Snapshot(shared); snapAfter != snapBefore {
@@ -258,6 +296,12 @@ func c17Run(r *core.Run) {
 		return
 	}
 	// (2)+(5)+(6) each task's results equal its solo execution on an identical fresh SP
+	if ent.ForeignUsed() || ent.Ambiguous() {
+		// a goroutine started by the library itself drew entropy: its identifiers cannot be attributed
+		// to a task's stream, so bit-for-bit comparison with a solo run is not defined for this run
+		r.Probe("library_goroutine_drew_entropy")
+		return
+	}
 	for i := range plans {
 		var fresh *saml2.SAMLServiceProvider
 		if plans[i].second {
@@ -434,6 +478,62 @@ func c17Do(sp *saml2.SAMLServiceProvider, op string, env *c17Env, scribble bool)
 			}
 			if before != after {
 				digest += " ARGUMENT-MODIFIED"
+			}
+		case "SignLogoutRequest(held)", "SignLogoutResponse(held)", "SignAuthnRequest(held)":
+			// the caller keeps the element it built and signs it twice; what the first call returned
+			// is scribbled over in between: neither the held element nor the second result may change
+			var d *etree.Document
+			var err error
+			sign := sp.SignAuthnRequest
+			switch op {
+			case "SignLogoutRequest(held)":
+				d, err = sp.BuildLogoutRequestDocumentNoSig("alice", "s1")
+				sign = sp.SignLogoutRequest
+			case "SignLogoutResponse(held)":
+				d, err = sp.BuildLogoutResponseDocumentNoSig(world.StatusOK, "_req1")
+				sign = sp.SignLogoutResponse
+			default:
+				d, err = sp.BuildAuthRequestDocumentNoSig()
+			}
+			if err != nil {
+				digest = errStr(err)
+				return nil
+			}
+			ser := func(e *etree.Element) string {
+				nd := etree.NewDocument()
+				nd.SetRoot(e.Copy())
+				x, _ := nd.WriteToString()
+				return x
+			}
+			before := ser(d.Root())
+			el1, err := sign(d.Root())
+			if err != nil {
+				digest = errStr(err)
+				return nil
+			}
+			digest = ser(el1)
+			if scribble {
+				el1.CreateAttr("scribbled", "1")
+				var walk func(e *etree.Element)
+				walk = func(e *etree.Element) {
+					for _, c := range e.ChildElements() {
+						walk(c)
+					}
+					if len(e.ChildElements()) == 0 {
+						e.SetText("scribble")
+					}
+					e.CreateAttr("x", "y")
+				}
+				walk(el1)
+			}
+			if ser(d.Root()) != before {
+				digest += " ARGUMENT-MODIFIED"
+			}
+			el2, err := sign(d.Root())
+			if err != nil {
+				digest += errStr(err)
+			} else if s2 := ser(el2); s2 != digest {
+				digest += " SECOND-RESULT-DIFFERS " + s2
 			}
 		case "SigningContext":
 			c := sp.SigningContext()
